@@ -425,7 +425,7 @@ def gen_lines(g, n):
     # --- represent_integer / represent_integer_non_diag: the real functions (level 1 constants) over a byte stream
     pL = vlib.LEVELS[1]["p"]
     trials = klpt_trials()
-    nrep = max(4, ncases // 1500)
+    nrep = max(24, ncases // 400)
     for i in range(nrep):
         nd = i % 2
         c = r.below(10)
